@@ -1,17 +1,43 @@
 (* Props/C07.v -- property C07: list mapping preserves per-item results and scopes across updates.
-   BOUNDED: the refinement of the keyed diff to its specification is established by computation for all
-   pairs over 5 keys and all chains of 3 over 4 keys; the bound is part of the statement. The unbounded
-   refinement theorem is not proved. *)
+   UNBOUNDED: one update of map_keyed (unique keys) and of map_indexed refines its specification for every
+   state satisfying the state invariant and every new list; the invariants are re-established, so every
+   chain of updates from the initial state is panic-free and refines the specification step by step; the
+   event log of every chain is a legal history (each call id created once, each scope disposed at most
+   once and only after its creation, live scopes = scopes of the current output).
+   Proofs: ListMap/IndexedProof.v, IndexedExact.v, KeyedProof.v, KeyedHistory.v.
+   The earlier bounded statements (by computation) are superseded; their file is kept in coq/attic. *)
 From Coq Require Import List Arith Bool.
-From Syc Require Import ListMap.Keyed ListMap.KeyedFacts.
+From Syc Require Import ListMap.Keyed ListMap.IndexedProof ListMap.IndexedExact
+                        ListMap.KeyedProof ListMap.KeyedHistory.
 Import ListNotations.
 
-Theorem C07_keyed_bounded : all_pairs_ok [1; 2; 3; 4; 5] = true.
-Proof. exact keyed_bounded_5. Qed.
+(* --- map_indexed --- *)
+Theorem C07_indexed_refines : forall st new, ist_ok st = true -> istep_refines st new = true.
+Proof. exact indexed_refines. Qed.
 
-Theorem C07_keyed_chain_bounded : all_triples_ok [1; 2; 3; 4] = true.
-Proof. exact keyed_chain_bounded_4. Qed.
+Theorem C07_indexed_chain : forall updates, irun iinit updates = true.
+Proof. exact indexed_chain. Qed.
 
-(* indexed: every pair of lists of length <= 4 over 3 items (value equality decides reuse) *)
-Theorem C07_indexed_bounded : all_ipairs_ok [(1, 0); (1, 1); (2, 0)] 4 = true.
-Proof. exact indexed_bounded. Qed.
+(* --- map_keyed --- *)
+Theorem C07_keyed_refines : forall st new,
+  kst_ok st = true -> nodup_keys (items st) = true -> nodup_keys new = true -> step_refines st new = true.
+Proof. exact keyed_refines. Qed.
+
+Theorem C07_keyed_chain : forall updates,
+  forallb nodup_keys updates = true -> krun kinit updates = true.
+Proof. exact keyed_chain. Qed.
+
+Theorem C07_keyed_history : forall updates, forallb nodup_keys updates = true ->
+  exists stf log,
+    klog kinit updates = Some (stf, log) /\
+    created log = seq 0 (next_id stf) /\
+    NoDup (disposed log) /\
+    (forall id, In id (disposed log) -> id < next_id stf) /\
+    (forall l1 d l2, log = l1 ++ Dispose d :: l2 -> In d (created l1)) /\
+    (forall id, In id (mapped stf) <-> id < next_id stf /\ ~ In id (disposed log)).
+Proof. exact keyed_history. Qed.
+
+Print Assumptions C07_indexed_refines.
+Print Assumptions C07_keyed_refines.
+Print Assumptions C07_keyed_chain.
+Print Assumptions C07_keyed_history.
